@@ -85,10 +85,12 @@ CLAIMS = {
             "Proof on the model: after ucinewgame two sessions with equal option values and table size are in the same state, so all later "
             "output coincides; without ucinewgame `position` fixes position and history. Hidden process state is measured against fresh processes.",
             "DESIGN.md section 6 C16", ""),
-    "C17": ("proof", "Coq proof of antisymmetry and board-only dependence (bswap involution, popcount invariance, odd truncating division) + differential",
+    "C17": ("proof", "Coq proof of antisymmetry, board-only dependence and the numeric bound (bswap involution, popcount invariance, odd truncating "
+            "division; table entries bounded by a finite sweep, men counted by kind with disjoint boards, phase and taper bounds) + differential",
             "Proved: evaluation reads the eight bitboards only (hence colour-blind: the mirrored twin is the same boards with the turn flag "
-            "negated) and is the exact negative with the turn passed, for all boards below 2^64. The numeric bound is checked on every "
-            "generated position, not proved.", "DESIGN.md section 6 C17", ""),
+            "negated), is the exact negative with the turn passed for all boards below 2^64, and satisfies |eval| <= 400000 < MATE_SCORE - "
+            "MAX_DEPTH on every position of D (more generally: at most 16 men a side, one kind per square). The bound uses the tables "
+            "the translator reads from the source, so a changed table re-opens it.", "DESIGN.md section 6 C17", ""),
     "C18": ("proof", "Coq refinement proof over arbitrary operation sequences + differential on random sequences",
             "Full proof on the model (generic entry type): every finite op sequence gives the outputs of the last-stored-per-slot specification; "
             "poll-after-add, clear, resize length and provenance, never-invented, fill indicator range.", "DESIGN.md section 6 C18",
